@@ -9,11 +9,12 @@ def cxx_int_ok(i):
     return -2147483648 <= i and i <= 2147483647
 
 
-contract(TR + "query_ast_visitor.visit_Constant", props=["C18", "C13", "C09"],
+contract(TR + "query_ast_visitor.visit_Constant", props=["C18", "C13", "C09"], replay="visit_constant_kinds",
          params=dict(self=QV, node=RefOf("ast.Constant")),
          requires=["gc_of(self) != None"],
          raises={"ValueError": "not (field(node, 'value').kind == K_STR or field(node, 'value').kind == K_INT or "
-                               "field(node, 'value').kind == K_FLOAT or field(node, 'value').kind == K_BOOL)"},
+                               "field(node, 'value').kind == K_FLOAT or field(node, 'value').kind == K_BOOL) or "
+                               "(field(node, 'value').kind == K_STR and not cxx_string_ok(field(node, 'value').s))"},
          ensures=[
              ("string@C18", "implies(field(node, 'value').kind == K_STR, plain_value(rep_of(node), '\"' + field(node, 'value').s + '\"', 'string'))"),
              ("string_representable@C18", "implies(field(node, 'value').kind == K_STR, cxx_string_ok(field(node, 'value').s))"),
